@@ -1,0 +1,28 @@
+//go:build verif
+
+package veriflaws
+
+import (
+	"github.com/csgura/fp"
+	"github.com/csgura/fp/internal/verifspec"
+)
+
+// Law predicates about fp.Hashable instances (property C09).
+
+// HashRespectsEqv: Eqv-equal values have equal hashes.
+func HashRespectsEqv[T any](h fp.Hashable[T]) bool {
+	return verifspec.Forall(func(a, b T) bool { return !h.Eqv(a, b) || h.Hash(a) == h.Hash(b) })
+}
+
+// HashLaws: the embedded Eq is an equivalence and Hash is compatible with it.
+// (Hash being a deterministic function of its argument is built into the
+// verifier's model of instance parameters, assumption A1.)
+func HashLaws[T any](h fp.Hashable[T]) bool {
+	return EqLaws[T](h) && HashRespectsEqv(h)
+}
+
+// HashFnRespects: a plain hash function is compatible with an Eq instance
+// (hypothesis of hash.New).
+func HashFnRespects[T any](e fp.Eq[T], f func(T) uint32) bool {
+	return verifspec.Forall(func(a, b T) bool { return !e.Eqv(a, b) || f(a) == f(b) })
+}
